@@ -1054,16 +1054,20 @@ class Interp:
     def comp(self, e, env):
         return [self.ev(e.elt, en) for en in self._comp_envs(e.generators, env)]
 
-    def _comp_envs(self, gens, env):
+    def _comp_envs(self, gens, env, scope=None, first=True):
+        """Python semantics: a comprehension has ONE scope; its loop variables are rebound at every iteration, so a closure
+        created in the element expression sees the last value (late binding)"""
+        if scope is None:
+            scope = Env(env)
         if not gens:
-            yield env
+            yield scope
             return
         g = gens[0]
-        for v in self.iterate(self.ev(g.iter, env)):
-            en = Env(env)
-            self.bind(g.target, v, en)
-            if all(self.truth(self.ev(c, en), c) for c in g.ifs):
-                yield from self._comp_envs(gens[1:], en)
+        # the first iterable is evaluated in the enclosing scope, the others in the comprehension's scope
+        for v in self.iterate(self.ev(g.iter, env if first else scope)):
+            self.bind(g.target, v, scope)
+            if all(self.truth(self.ev(c, scope), c) for c in g.ifs):
+                yield from self._comp_envs(gens[1:], env, scope, False)
 
     def ev_JoinedStr(self, e, env):
         out = []
